@@ -88,7 +88,7 @@ def check_pcacd(case, ctx):
     if fk.forked_steps:
         ctx.label("met-knife-edge")
     ctx.label(f"metric={p['divergence_metric']}", f"scaling={p['online_scaling']}", f"num_pcs={min(m.num_pcs or 0, 3)}", f"drifts={min(ndrift, 2)}")
-    if ndrift >= 1 and m.epoch >= 1 and m.scores_in_epoch >= 1:
+    if ndrift >= 1 and "score-in-second-epoch" in ctx.labels:
         ctx.label("nontrivial")
 
 
